@@ -51,11 +51,15 @@ def _explore(db, ref, TR):
 
 
 def run(db, chk) -> None:
+    from ..specs.discipline import check_stateless
+    check_stateless(db, chk, "C14.R-stateless", ['hta.analyzers.trace_counters'])      # the result is a function of the arguments: no state kept between calls, caller's Trace untouched
+    chk.floor("C14.R-stateless", 4)
     m = db.mod(TC)
     TR = ("param", "TR")
     _queue(db, chk, m, TR)
     _bandwidth(db, chk, m, TR)
     _unshift(db, chk)
+    _wrapper_rename(db, chk)
     _per_rank_wrappers(db, chk, m)
 
 
@@ -328,3 +332,43 @@ def _per_rank_wrappers(db, chk, m):
         chk.ob(rule, f"{q}: the rank list is replaced only when none was given", all(v == "default-if-none" for _, _, v in H.rebinds_of_params(f, ["ranks"])), where,
                found=[x[1] for x in H.rebinds_of_params(f, ["ranks"])], accepted="if ranks is None or len(ranks) == 0: ranks = [0]")
     chk.floor(rule, 4)
+
+
+def _wrapper_rename(db, chk):
+    """generate_trace_with_counters.add_time_series: the frame handed to convert_time_series_to_events carries the stream under the column
+    'id' (the counter id that keeps the per-stream series apart in the written file)."""
+    rule = "C14.R4-unshift-agreement"
+    ta = db.mod("hta.trace_analysis")
+    q = "TraceAnalysis.generate_trace_with_counters.add_time_series"
+    f = ta.func(q)
+    where = ta.loc(f)
+    S = ("param", "SER")
+    seen = []
+
+    def hook(I, name, pos, kw, node):
+        if name.endswith("convert_time_series_to_events"):
+            seen.append(pos[0] if pos else kw.get("series"))
+            return []
+        return NotImplemented
+    from ..core.values import DefaultDict
+    for has_stream in (True, False):
+        seen.clear()
+        I = Interp(db, call_hook=hook)
+        cols = ["pid", "tid", "ts", "CNT"] + (["stream"] if has_stream else ["name"])
+
+        def clos(I):
+            d = DefaultDict()
+            return {"self": Obj("self", attrs={"t": Obj("t")}), "counter_events": d}
+        runs = [r for r in I.explore(f"hta.trace_analysis:{q}", lambda I: {"series_dict": {T.P("RANK"): Frame(S, known=list(cols))}, "counter_name": "CN", "counter_col": "CNT"}, clos) if r.raised is None]
+        fr = [x for x in seen if isinstance(x, Frame)]
+        if len(runs) != 1 or len(fr) != 1:
+            chk.ob(rule, f"add_time_series (stream column present={has_stream}): one path handing one frame to convert_time_series_to_events", None, where, found={"paths": len(runs), "frames": len(fr)})
+            continue
+        F = fr[0]
+        if has_stream:
+            ok = F.has("id") is True and F.col("id") == T.col(S, "stream") and F.has("stream") is not True
+            chk.ob(rule, "a per-stream series reaches the event conversion with its stream under the column 'id'", ok, where,
+                   found={"columns": F.colnames(), "id": T.show(F.col("id"))[:60] if F.has("id") else None}, accepted="id = series.stream (renamed in place or re-assigned)",
+                   why="without the id every stream's 'Queue Length' counter collapses into one series in the written file")
+        else:
+            chk.ob(rule, "a series without a stream column is passed on unchanged", F.base == S and F.colnames() is not None and sorted(F.colnames()) == sorted(cols), where, found=F.colnames(), accepted=sorted(cols))
